@@ -419,7 +419,13 @@ func (p *queryPlan) processClause(ctx context.Context, cls *semantic.GraphClause
 				Msgs: []string{fmt.Sprintf("None of the clause binding exist %v/%v", cls.Bindings(), existing)},
 			}
 		})
-		// Data is new.
+		// Data is new. Time bounds given as bindings cannot be resolved, since
+		// none of the previous clauses binds them.
+		for _, b := range []string{cls.PLowerBoundAlias, cls.PUpperBoundAlias, cls.OLowerBoundAlias, cls.OUpperBoundAlias} {
+			if b != "" {
+				return true, fmt.Errorf("invalid time anchor value <nil> for bound %s", b)
+			}
+		}
 		stmLimit := int64(0)
 		if p.canPushLimitDown(cls) {
 			stmLimit = p.stm.Limit()
